@@ -32,11 +32,11 @@ def run(tier, rep):
     quick = tier == "quick"
     rep.assumptions += ["TLC 1.8", "generator-emitted frame list is used for the direct clause (C); a generator bug would be a machinery bug"]
     bundle = de.real_bundle()
-    fe.mc(rep, "items", 3 if quick else 4, maxpay=2, damage=False, optset="OptCore" if quick else "OptAll", bundle=bundle)
+    fe.mc(rep, "items", 3 if quick else 6, maxpay=2, damage=False, optset="OptCore" if quick else "OptAll", bundle=bundle)
     rnd = rng("c02")
     pool = stream_corpus.payload_pool(bundle, "c02") + stream_corpus.special_payloads(bundle, rnd) + stream_corpus.syncy_payloads(rnd, 20)
     tr = fe.Traces(rep)
-    n = 36 if quick else 400
+    n = 48 if quick else 800
     for i in range(n):
         kind = ["bytesio", "buffered", "socket", "scripted"][i % 4]
         data, items = gen_streams.mixed_stream(rnd, pool, rnd.randint(3, 16), well_formed=True, dmg=0.0, crlf_only=(kind == "socket"))
